@@ -22,7 +22,7 @@ const (
 func init() {
 	register(&CheckSpec{
 		ID:       "C05",
-		Patterns: []string{pkgHashkit},
+		Patterns: []string{pkgHashkit, pkgCore},
 		Jobs: func(tier string) []*JobCfg {
 			maxL := 10
 			if tier == "thorough" {
@@ -32,13 +32,20 @@ func init() {
 			for L := 0; L <= maxL; L++ {
 				js = append(js, job(pkgHashkit, "HarnessC05", int64(L)))
 			}
+			// the users of the mapping: the request decoder files every fragment under the specification slot of
+			// the RIGHT argument (first key; third argument for scripts; every key of a multi-key request), real CRC
+			ms := []string{"CRespCodec).MGet", "CRespCodec).Del", "CRespCodec).MSet"}
+			js = append(js, job(pkgCore, "HarnessC02Req", 1, 2), job(pkgCore, "HarnessC02Req", 3, 1), sites(job(pkgCore, "HarnessC06", 0, 2, 3, 0), ms...))
+			if tier == "thorough" {
+				js = append(js, job(pkgCore, "HarnessC02Req", 2, 3), sites(job(pkgCore, "HarnessC06", 2, 2, 2, 1), ms...), sites(job(pkgCore, "HarnessC06", 1, 3, 2, 0), ms...))
+			}
 			return js
 		},
 		Bounds: func(tier string) string {
 			if tier == "thorough" {
-				return "every key of length 0..14 bytes (all byte values, all brace arrangements); table lemma over all 256 indices; one-step CRC fold lemma over every 32-bit pre-state and byte"
+				return "every key of length 0..14 bytes (all byte values, all brace arrangements); table lemma over all 256 indices; one-step CRC fold lemma over every 32-bit pre-state and byte; end to end through the request decoder (every single-key command, scripts, MGET/DEL/MSET) with keys of 1..3 arbitrary bytes: each fragment is filed under the specification slot of the right argument"
 			}
-			return "every key of length 0..10 bytes (all byte values, all brace arrangements); table lemma over all 256 indices; one-step CRC fold lemma over every 32-bit pre-state and byte"
+			return "every key of length 0..10 bytes (all byte values, all brace arrangements); table lemma over all 256 indices; one-step CRC fold lemma over every 32-bit pre-state and byte; end to end through the request decoder (every single-key command, scripts, MGET) with keys of 1..3 arbitrary bytes: each fragment is filed under the specification slot of the right argument"
 		},
 		Assumptions: []string{"specification oracle: bitwise CRC16/XMODEM and the hash-tag rule written in the harness from the Redis Cluster specification"},
 		Stubs:       []string{"strings.Index / bytealg.IndexByteString as closed-form first-match terms"},
@@ -125,6 +132,13 @@ func init() {
 			js = append(js, job(pkgServer, "HarnessC12Shape", 1, 1, 1, 0, 1), job(pkgServer, "HarnessC12Shape", 2, 1, 1, 0, 1), job(pkgServer, "HarnessC12Shape", 1, 1, 2, 0, 0), job(pkgServer, "HarnessC12Shape", 1, 1, 2, 0, 2))
 			// lengths that only exist with 10..20 digits: above 512 MB, next to 2^63, wrapping around 2^64
 			js = append(js, job(pkgServer, "HarnessC12Len", 10, 1), job(pkgServer, "HarnessC12Len", 19, 1), job(pkgServer, "HarnessC12Len", 20, 5))
+			// the other decoder branches: MGET / MSET / DEL / EVAL with one field (count, a length, numkeys, a key) arbitrary
+			for kind := int64(0); kind <= 4; kind++ {
+				js = append(js, job(pkgServer, "HarnessC12Cmd", kind, -1, 2, 0))
+				if tier == "thorough" {
+					js = append(js, job(pkgServer, "HarnessC12Cmd", kind, -1, 1, 0), job(pkgServer, "HarnessC12Cmd", kind, -1, 3, 0), job(pkgServer, "HarnessC12Cmd", kind, -1, 2, 9))
+				}
+			}
 			if tier == "thorough" {
 				js = append(js, job(pkgServer, "HarnessC12Shape", 2, 2, 2, 0, 1), job(pkgServer, "HarnessC12Shape", 3, 1, 1, 0, 1), job(pkgServer, "HarnessC12Shape", 1, 3, 3, 0, 0), job(pkgServer, "HarnessC12Shape", 2, 2, 2, 9, 1), job(pkgServer, "HarnessC12Shape", 1, 1, 1, 13, 1), job(pkgServer, "HarnessC12Len", 20, 1), job(pkgServer, "HarnessC12Len", 18, 3))
 			}
@@ -132,9 +146,9 @@ func init() {
 		},
 		Bounds: func(tier string) string {
 			if tier == "thorough" {
-				return "every client input of 1..13 arbitrary bytes in one read; every input of 9 bytes in every two-read segmentation; GET-shaped requests whose count field (1..3 bytes), length fields (1..3 bytes), name (3 bytes) and key (1 byte) are arbitrary; then one well-formed request from a second client"
+				return "every client input of 1..13 arbitrary bytes in one read; every input of 9 bytes in every two-read segmentation; GET-shaped requests whose count field (1..3 bytes), length fields (1..3 bytes), name (3 bytes) and key (1 byte) are arbitrary; MGET/MSET/DEL/EVAL requests with any ONE field (count, a bulk length, numkeys, a key, the name) replaced by 1..3 arbitrary bytes; then one well-formed request from a second client"
 			}
-			return "every client input of 1..9 arbitrary bytes in one read; every input of 7 bytes in every two-read segmentation; GET-shaped requests whose count field (1..2 bytes), length fields (1..2 bytes), name (3 bytes) and key (1 byte) are arbitrary; then one well-formed request from a second client"
+			return "every client input of 1..9 arbitrary bytes in one read; every input of 7 bytes in every two-read segmentation; GET-shaped requests whose count field (1..2 bytes), length fields (1..2 bytes), name (3 bytes) and key (1 byte) are arbitrary; MGET/MSET/DEL/EVAL requests with any ONE field (count, a bulk length, numkeys, a key, the name) replaced by 2 arbitrary bytes; then one well-formed request from a second client"
 		},
 		Assumptions: []string{"oracle for 'a Redis server would reject it': a transcription of redis networking.c processMultibulkBuffer and util.c string2ll (as lenient as Redis); 'offending' input = refused by that model AND visibly malformed on a complete line or payload (so a proxy that waits for a line end is not blamed)", "every feasible Go panic inside repository code counts as a crash (the proxy has no recover and one event-loop goroutine)"},
 		Stubs:       []string{stubWorld},
@@ -439,7 +453,7 @@ func init() {
 		},
 		Assumptions: []string{"short writes exist only in the socket model (a native run cannot force them); counterexamples that need them are reported as model-level"}, Stubs: []string{stubWorld},
 		Outside: []string{"multi-megabyte values, nesting deeper than 2, the redirect and authentication errors the proxy itself acts on"}})
-	register(&CheckSpec{ID: "C19", Patterns: []string{pkgRing, pkgList, pkgElastic},
+	register(&CheckSpec{ID: "C19", Patterns: []string{pkgRing, pkgList, pkgElastic, pkgServer},
 		Jobs: func(tier string) []*JobCfg {
 			var js []*JobCfg
 			sizes := []int64{0, 2, 4}
@@ -482,6 +496,12 @@ func init() {
 					}
 				}
 			}
+			// the users: partial writes to a slow peer and the ordered drain of the backlog (conn.write/writev,
+			// eventloop.write) in both directions
+			js = append(js, noMapOrder(job(pkgServer, "HarnessC02Slow", 4)), noMapOrder(job(pkgServer, "HarnessBig", 1, 9000, 0, 256)))
+			if tier == "thorough" {
+				js = append(js, noMapOrder(job(pkgServer, "HarnessC02Slow", 8)), noMapOrder(job(pkgServer, "HarnessC10Slow", 16, 3)), noMapOrder(job(pkgServer, "HarnessBig", 1, 17000, 0, 32768)), noMapOrder(job(pkgServer, "HarnessBig", 1, 70000, 0, 65536)))
+			}
 			rs := []int64{0, 4}
 			if tier == "thorough" {
 				rs = []int64{0, 2, 4, 8}
@@ -508,7 +528,7 @@ func init() {
 			return js
 		},
 		Bounds: func(tier string) string {
-			return "ONE operation from ANY valid state (inductive step): ring of 0/2/4(/8) bytes in every read/write position, empty or not, arbitrary contents, operation sizes 0..size+2 (growth included) and negative; list of 0..2 nodes of 1..3 bytes; composite of ring + list with static limit 2/4/8; real grow() across the 4 KiB threshold at four concrete geometries; rings of 5120 (thorough: 6400, 8000) bytes - the capacities growth produces above 4 KiB, which are not powers of two - with read/write positions at the edges, around 1 KiB and around 4 KiB, operation sizes 1 / 1024 / 4097"
+			return "ONE operation from ANY valid state (inductive step): ring of 0/2/4(/8) bytes in every read/write position, empty or not, arbitrary contents, operation sizes 0..size+2 (growth included) and negative; list of 0..2 nodes of 1..3 bytes; composite of ring + list with static limit 2/4/8; real grow() across the 4 KiB threshold at four concrete geometries; rings of 5120 (thorough: 6400, 8000) bytes - the capacities growth produces above 4 KiB, which are not powers of two - with read/write positions at the edges, around 1 KiB and around 4 KiB, operation sizes 1 / 1024 / 4097; end to end: two replies to a client whose socket accepts a solver-chosen 0..3 / 0..6 / 0..2 bytes and then 3 at a time (static outbound buffer of 4 bytes, thorough 8), a 9000-byte reply to a slow reader drained in 4 KiB steps (thorough: 17000 and 70000 bytes; requests to a slow node)"
 		},
 		Assumptions: []string{"representation invariants stated in the harness (ring: positions in range, len(buf)==size, empty implies r==w; list: size/bytes/tail consistent, no empty node); because each step re-establishes them, histories of any length over these sizes are covered"},
 		Stubs:       []string{"byteslice pool = LIFO per size class with stale contents"},
